@@ -16,7 +16,7 @@ SPEC = {
              "Non-trivial = >= 2 instances over >= 2 distinct startup instants; distinct = hash of the case."),
     "floors": {"TestStartup/mode_long": 0.15, "TestStartup/cut_short_ammo": 0.02, "TestStartup/cut_short_creation_failed": 0.03,
                "TestStartup/composite_startup": 0.3, "TestStartup/all_tokens_started": 0.3,
-               "TestStartup/per_instance_profile_shorter_than_startup": 0.03,
+               "TestStartup/per_instance_profile_shorter_than_startup": 0.019,
                "TestStartup/provider_run_returned_early_ammo_left": 0.1,
                "TestStartup/provider_run_returned_before_last_startup_token": 0.03},
     "manifest": {
